@@ -11,6 +11,7 @@ package main
 
 import (
 	stdecdsa "crypto/ecdsa"
+	"bytes"
 	"crypto/elliptic"
 	"crypto/sha512"
 	"encoding/hex"
@@ -145,9 +146,17 @@ func run(c Case) (string, *mc.Viol) {
 	}
 	var err error
 	if p := mc.Catch(func() { err = att.VerifyRequest(req, unhex(c.Blind), unhex(c.ClientKey), make([]byte, 32)) }); p != "" {
+		if len(req.EncryptedTokenRequest) > 65535 && cache.Puts == puts && dumpCache(cache) == before {
+			// a request that has no wire encoding can only be built in the attester's own process; the
+			// statement is about requests, i.e. what a peer can send: not accepting it is what counts
+			return "unencodable-request-not-accepted(panic)", nil
+		}
 		return "panic", &mc.Viol{Sig: "VerifyRequest panics: " + c.Class, What: p}
 	}
 	want, why := refAccept(c)
+	if len(req.EncryptedTokenRequest) > 65535 {
+		want, why = false, "the ciphertext does not fit its 16-bit length prefix: the request has no encoding a signature could cover"
+	}
 	switch {
 	case err == nil && !want:
 		return "accept/ref-reject", &mc.Viol{Sig: "VerifyRequest accepts a request that is not authentic: " + why, What: fmt.Sprintf("class %s: VerifyRequest returned nil; reference: %s", c.Class, why)}
@@ -181,6 +190,10 @@ func p384Scalar(kind int, label string) []byte {
 		new(big.Int).Sub(n, big.NewInt(1)).FillBytes(out)
 	case 4:
 		copy(out[1:], mc.Fill(seedv, "lz-"+label, 47))
+	case 6: // 2^384-1: a legal blind (a byte string that is hashed), not a scalar below N
+		return bytes.Repeat([]byte{0xff}, 48)
+	case 7: // a 64-byte blind
+		return mc.Fill(seedv, "blind64-"+label, 64)
 	default:
 		v := new(big.Int).SetBytes(mc.Fill(seedv, "sc-"+label, 56))
 		v.Mod(v, new(big.Int).Sub(n, big.NewInt(1)))
@@ -228,11 +241,11 @@ func main() {
 	if err := w.Issuer.AddOrigin("origin.example"); err != nil {
 		panic(err)
 	}
-	H := mc.Pick(r, 2, 4)
+	H := mc.Pick(r, 2, 6)
 	var hs []honest
 	// client secret kinds x blind kinds; clients 0/1 share nothing, (2,3) share the client secret
-	secK := []int{5, 4, 1, 5}
-	blK := []int{5, 1, 3, 4}
+	secK := []int{5, 4, 1, 5, 5, 4}
+	blK := []int{5, 6, 3, 4, 7, 1}
 	for i := 0; i < H; i++ {
 		a := px.T3Args{Secret: p384Scalar(secK[i], fmt.Sprintf("sec%d", i)), Blind: p384Scalar(blK[i], fmt.Sprintf("bl%d", i)), Challenge: mc.Fill(seedv, "chal", 32+i), Nonce: mc.Fill(seedv, fmt.Sprintf("nonce%d", i), 32), Origin: "origin.example"}
 		st, err := w.Create(a)
@@ -351,6 +364,40 @@ func main() {
 			c = mk(o, tag+"other-request-with-own-blind-and-key")
 			c.Blind, c.ClientKey = hex.EncodeToString(h.blind), hex.EncodeToString(h.clientKey)
 			add(c)
+		}
+		// ciphertext at the limit of its 16-bit length prefix: 65535 bytes signed by the request key is
+		// authentic; 65536 bytes cannot be encoded, so no signature over "the request's exact contents"
+		// exists and the request must not be accepted (with the honest signature of the original, and
+		// with a signature over the message whose length prefix wrapped around to 0)
+		if hi == 0 {
+			f := refs.BlindFactor(new(big.Int).SetBytes(h.blind), "ClientBlind")
+			d := new(big.Int).Mul(new(big.Int).SetBytes(h.secret), f)
+			d.Mod(d, elliptic.P384().Params().N)
+			sign := func(enc []byte, declared int) []byte {
+				msg := append([]byte{0x00, 0x03}, h.req.RequestKey...)
+				msg = append(msg, h.req.NameKeyID...)
+				msg = append(msg, byte(declared>>8), byte(declared))
+				msg = append(msg, enc...)
+				dg := sha512.Sum384(msg)
+				priv := &stdecdsa.PrivateKey{D: d}
+				priv.Curve = elliptic.P384()
+				priv.X, priv.Y = priv.Curve.ScalarBaseMult(d.Bytes())
+				rr, ss, err := stdecdsa.Sign(mc.NewStream(seedv, "c06-big-sign"), priv, dg[:])
+				if err != nil {
+					panic(err)
+				}
+				return append(rr.FillBytes(make([]byte, 48)), ss.FillBytes(make([]byte, 48))...)
+			}
+			for _, n := range []int{65535, 65536, 65537} {
+				enc := mc.Fill(seedv, "c06-big-ciphertext", n)
+				c := mk(h, tag+fmt.Sprintf("ciphertext-of-%d-bytes:signed-by-the-request-key", n))
+				c.Encrypted = hex.EncodeToString(enc)
+				c.Signature = hex.EncodeToString(sign(enc, n&0xffff))
+				add(c)
+				c = mk(h, tag+fmt.Sprintf("ciphertext-of-%d-bytes:honest-signature-of-the-original", n))
+				c.Encrypted = hex.EncodeToString(enc)
+				add(c)
+			}
 		}
 		// blind alphabet (incl. encodings of the same scalar with a leading zero byte: same scalar => still authentic)
 		for k := 1; k <= 5; k++ {
